@@ -466,3 +466,53 @@ func listBuiltInMapOrder(rest map[int]string) []string {
 	}
 	return out
 }
+
+// LINT-PANICOPS
+func divideByLength(total int, parts []string) int {
+	return total / len(parts)
+}
+
+func makeOfDifference(width int, s string) []byte {
+	return make([]byte, width-len(s))
+}
+
+func repeatOfDifference(width int, s string) string {
+	return strings.Repeat(" ", width-len(s)) + s
+}
+
+type unmadeRegistry struct {
+	byName map[string]int
+}
+
+func storeIntoUnmadeMap(r *unmadeRegistry, name string) {
+	r.byName[name] = 1
+}
+
+// LINT-READ whole-stream: a longer document is cut off without a word.
+func readsOnlyTheStart(r io.Reader) (string, error) {
+	sb := new(strings.Builder)
+	_, err := io.Copy(sb, io.LimitReader(r, 1024))
+	return sb.String(), err
+}
+
+// ENC-PRESENCE: the all-zero address is a value, not absence.
+type hostAddr interface{ octets() []byte }
+
+type ip4 [4]byte
+
+func (a ip4) octets() []byte { return a[:] }
+
+type withOptionalAddr struct {
+	Addr hostAddr
+}
+
+func addrGiven(a hostAddr) bool {
+	return a != nil && !bytes.Equal(a.octets(), []byte{0, 0, 0, 0})
+}
+
+func presentButZero(w withOptionalAddr) []byte {
+	if addrGiven(w.Addr) {
+		return w.Addr.octets()
+	}
+	return nil
+}
